@@ -4,12 +4,14 @@ import (
 	"fmt"
 	"math/big"
 	"math/rand"
+	"os"
 	"regexp"
 
 	"verif/harness/core"
 	"verif/harness/gen"
 	"verif/harness/model"
 	"verif/harness/obs"
+	"verif/harness/run"
 )
 
 func init() {
@@ -181,6 +183,43 @@ func runC13(c *core.Ctx) {
 			c.Sample(map[string]any{"food.yaml": clip(files["food.yaml"], 500), "log.yaml": clip(files["log.yaml"], 500)})
 		}
 	})
+	// real processes in zones whose DST starts at local midnight, logs dated on the switch days:
+	// the exported dates must still be the file's calendar dates
+	for zi, zc := range []struct {
+		zone string
+		day  gen.Date
+	}{{"America/Santiago", gen.Date{Y: 2022, M: 9, D: 11}}, {"America/Havana", gen.Date{Y: 2022, M: 3, D: 13}}, {"Asia/Beirut", gen.Date{Y: 2022, M: 3, D: 27}}, {"UTC", gen.Date{Y: 2022, M: 3, D: 13}}, {"Pacific/Kiritimati", gen.Date{Y: 2022, M: 1, D: 1}}, {"America/Los_Angeles", gen.Date{Y: 2022, M: 3, D: 13}}} {
+		if _, err := os.Stat("/usr/share/zoneinfo/" + zc.zone); err != nil {
+			continue
+		}
+		var log gen.Log
+		for off := -1; off <= 1; off++ {
+			log = append(log, gen.Day{Date: zc.day.AddDays(off), Ents: []gen.Ent{{Name: "tea, green", Val: gen.N("1.5")}, {Name: fmt.Sprintf("day%d", off+1), Val: gen.N("2")}}})
+		}
+		files := map[string]string{"log.yaml": gen.RenderLog(log, "2006/01/02", nil)}
+		dir := fmt.Sprintf("%s/tz%d", c.Work, zi)
+		run.WriteFiles(dir, files)
+		args := []string{"-l", "log.yaml", "csv", "log"}
+		res := run.Exec(c.HR, args, run.ExecOpts{Dir: dir, Env: map[string]string{"TZ": zc.zone}})
+		c.Eval(1)
+		c.Count("runs_csv log in DST-at-midnight zones", 1)
+		c.Nontrivial("tz", zc.zone)
+		rows, err := obs.ParseCSV(res.Out)
+		bad := ""
+		if res.Exit != 0 || err != nil || len(rows) != 6 {
+			bad = fmt.Sprintf("exit %d, %v, %d rows", res.Exit, err, len(rows))
+		} else {
+			for k, row := range rows {
+				if want := log[k/2].Date.ISO(); row[0] != want {
+					bad = fmt.Sprintf("row %d has date %s, the file says %s", k, row[0], want)
+					break
+				}
+			}
+		}
+		if bad != "" {
+			c.Violation("csv log|date-depends-on-time-zone", fmt.Sprintf("TZ=%s: %s", zc.zone, bad), caseDoc{Files: files, Args: args, Env: map[string]string{"TZ": zc.zone}, Observed: resDoc(res)})
+		}
+	}
 	jobs, deaths := pool.Stats()
 	c.Count("l2_jobs", jobs)
 	c.Count("l2_process_deaths", deaths)
